@@ -236,6 +236,14 @@ def _find_declarations(stmts):
     return found
 
 
+def _yielding(frame, value):
+    return (yield value)
+
+
+def _delegating(frame, iterable):
+    return (yield from iterable)
+
+
 def _simple_index(slc):
     """Whether the index can be evaluated twice (a constant, a name, a:b)."""
     if isinstance(slc, ast.Slice):
@@ -1279,14 +1287,34 @@ class PteraTransformer(NodeTransformer):
             self.visit(node.value or ast.Constant(value=None)),
             True,
         )
+        # The frame does the actual yield, so that it knows when the
+        # generator is suspended and when it is resumed
         new_yield = self._interact(
             "#receive",
             None,
             self._get("enter_tag"),
-            ast.Yield(value=new_value),
+            ast.YieldFrom(
+                value=ast.Call(
+                    func=self._get("yielding"),
+                    args=[self._get("frame"), new_value],
+                    keywords=[],
+                )
+            ),
             True,
         )
         return ast.copy_location(new_yield, node)
+
+
+    def visit_YieldFrom(self, node):
+        # The frame does the delegation, for the same reason
+        new_node = ast.YieldFrom(
+            value=ast.Call(
+                func=self._get("delegating"),
+                args=[self._get("frame"), self.visit(node.value)],
+                keywords=[],
+            )
+        )
+        return ast.copy_location(new_node, node)
 
 
 class _Conformer:
@@ -1535,6 +1563,14 @@ def transform(fn, proceed, to_instrument=True, set_conformer=True):
     glb = fn.__globals__
     lib = {
         "proceed": (f"__ptera_{id(proceed)}", proceed),
+        "yielding": (
+            f"__ptera_yielding_{id(proceed)}",
+            getattr(proceed, "yielding", _yielding),
+        ),
+        "delegating": (
+            f"__ptera_delegating_{id(proceed)}",
+            getattr(proceed, "delegating", _delegating),
+        ),
         "globals": (
             "__ptera_globals",
             DictPile(glb, __builtins__, default=ABSENT),
